@@ -1,23 +1,46 @@
 from props import *  # noqa: F401,F403
 
 # ------------------------------------------------------------------------------------------------
+# header-only API: nothing of the SDK is linked
 rc_bin("c10_rc", ["harness/c10_context.cc"], lib=False)
 # the thread programs once more under ThreadSanitizer (thorough tier only)
 rc_bin("c10_rc_tsan", ["harness/c10_context.cc"], lib=False, san="tsan")
 PROPS["C10"] = dict(
-    level_text="Model-based property tests over generated operation histories (rapidcheck, ASan/UBSan; real threads "
-               "for the isolation clause): every explored history agreed with a persistent-map model of the context "
-               "family and a stack model of the runtime context.",
-    technique="stateful model-based PBT (persistent map model, identity-matching stack model), real-thread runs with per-thread oracles",
+    level_text="Model-based property tests over generated operation histories (rapidcheck, ASan/UBSan; real threads, "
+               "and ThreadSanitizer in the thorough tier, for the isolation clause): every explored history agreed with "
+               "a persistent-map model of the context family and an identity-matching stack model of the runtime "
+               "context. Exploration is the right level: the domain (all histories of SetValue/SetValues/Attach/"
+               "Detach/Scope, all detach orders and depths) is unbounded and the models are cheap, so breadth of "
+               "generated histories is what finds shadowing, ownership and unwinding defects; the thread clause is "
+               "checked with per-thread oracles that hold under every schedule, not by enumerating schedules.",
+    technique="stateful model-based PBT (persistent map model; stack model with identity matching, most-recent-first, "
+              "unwind-above on out-of-order detach); every live context re-queried after every mutation; real-thread "
+              "runs with per-thread models (nondeterministic schedule, schedule-independent oracle)",
     rule="Cases are choice streams decoded into context-family histories / attach-detach-scope programs.",
-    assumptions=[SC_NOTE],
+    assumptions=[
+        "keys are passed as non NUL-terminated views whose storage is overwritten and freed right after the call; "
+        "the empty key is also passed as string_view{} (null data pointer)",
+        "not specified, hence not asserted: HasKey for a key whose most recent binding is the empty alternative "
+        "(GetValue must still return that empty binding); which of two equal keys inside ONE container wins "
+        "(never generated); the return value of Detach for a token of the empty context on an empty stack "
+        "(nothing may change)",
+        "Context::operator== is asserted only where the repository documents it (a copy equals its source, contexts "
+        "that answer differently are unequal, GetCurrent() equals the attached context, an empty stack yields "
+        "Context()); otherwise it is observed and fed into the stack model, so SetValues(empty) may or may not be "
+        "identical to its receiver",
+        "tokens handed over from another thread belong to contexts that cannot be on the receiving thread's stack, "
+        "so they are foreign under any reading of 'matching'",
+        "rt_threads: the schedule is whatever the OS produces; each thread is checked against its own model after "
+        "every step, so a failure is a real violation under some schedule but a replay may need several attempts",
+        SC_NOTE,
+    ],
     runs=[
-        run("map", "c10_rc", "ctx_map", "rc", dict(procs=5, cases=4000), dict(procs=16, cases=40000)),
-        run("stack", "c10_rc", "rt_stack", "rc", dict(procs=6, cases=4000), dict(procs=16, cases=40000)),
-        run("threads", "c10_rc", "rt_threads", "rc", dict(procs=4, cases=1500), dict(procs=8, cases=20000),
+        run("map", "c10_rc", "ctx_map", "rc", dict(procs=5, cases=5000), dict(procs=16, cases=40000)),
+        run("stack", "c10_rc", "rt_stack", "rc", dict(procs=6, cases=4000), dict(procs=16, cases=30000)),
+        run("threads", "c10_rc", "rt_threads", "rc", dict(procs=4, cases=1500), dict(procs=8, cases=15000),
             deterministic=False),
-        run("threads-tsan", "c10_rc_tsan", "rt_threads", "rc", None, dict(procs=4, cases=4000),
+        run("threads-tsan", "c10_rc_tsan", "rt_threads", "rc", None, dict(procs=4, cases=3000),
             deterministic=False),
-        run("stack-tsan", "c10_rc_tsan", "rt_stack", "rc", None, dict(procs=2, cases=4000)),
+        run("stack-tsan", "c10_rc_tsan", "rt_stack", "rc", None, dict(procs=2, cases=3000)),
     ],
 )
